@@ -59,6 +59,13 @@ func (c chainSpec) String() string {
 
 var linkNames = []string{"inReplyTo", "object", "target", "tag"}
 
+const (
+	c17RemoteOwned     = "https://r1.example/n/owned-by-this-server"
+	c17LocalForeign    = "https://l.example/n/other-tenants-value"
+	c17RemoteOwnedColl = "https://r1.example/c/owned-by-this-server"
+	c17LocalForeignCol = "https://l.example/c/other-tenants-collection"
+)
+
 // build attaches the chain to act and registers remote documents; it returns the 1-based hop
 // count at which an owned value is reachable (0 = never).
 func (c chainSpec) build(act M, remote map[string]M) int {
@@ -130,6 +137,15 @@ func (c chainSpec) build(act M, remote map[string]M) int {
 			}
 			node = M{"type": "Link", "id": id, "href": other}
 			cur[h.link] = node
+		case "iri-remote-owned":
+			// ownership is a per-IRI question: a value on a foreign host that this server owns
+			cur[h.link] = c17RemoteOwned
+			if !broken && reach == 0 {
+				reach = i + 1
+			}
+		case "iri-local-foreign":
+			// ... and a value on this server's host that it does not own
+			cur[h.link] = c17LocalForeign
 		case "iri-missing":
 			cur[h.link] = id // nothing registered
 			if !(last && c.owned) {
@@ -221,6 +237,11 @@ func c17chains(maxDepth int) []chainSpec {
 			out = append(out, chainSpec{hops: []hop{{"tag", f}}, owned: true, sibling: sib})
 		}
 	}
+	// the final value owned although on a foreign host / not owned although on the local host
+	for _, l := range linkNames {
+		out = append(out, chainSpec{hops: []hop{{l, "iri-remote-owned"}}}, chainSpec{hops: []hop{{l, "iri-local-foreign"}}})
+	}
+	out = append(out, chainSpec{hops: []hop{{"object", "embedded"}, {"inReplyTo", "iri-remote-owned"}}}, chainSpec{hops: []hop{{"object", "iri"}, {"tag", "iri-local-foreign"}}})
 	// the final value spelled as a Link-derived value: Mention named by href only, Link whose id and href disagree
 	for _, lf := range []string{"mention-href", "link-id-href"} {
 		for _, owned := range []bool{true, false} {
@@ -259,9 +280,9 @@ func C17(tier string) int {
 	if res.Thorough() {
 		maxAddr, maxDepth, limits = 3, 5, []int{1, 2, 3, 4}
 	}
-	entries := []string{Col1, OCol1, RCol, Note1, Carol}
-	isOwnedColl := map[string]bool{Col1: true, OCol1: true}
-	members := map[string][]string{Col1: {Carol, Dave}, OCol1: {Dave}}
+	entries := []string{Col1, OCol1, RCol, Note1, Carol, c17RemoteOwnedColl, c17LocalForeignCol}
+	isOwnedColl := map[string]bool{Col1: true, OCol1: true, c17RemoteOwnedColl: true}
+	members := map[string][]string{Col1: {Carol, Dave}, OCol1: {Dave}, c17RemoteOwnedColl: {Erin, Carol}}
 	var addrSeqs [][]string
 	var gen func(cur []string)
 	gen = func(cur []string) {
@@ -304,7 +325,7 @@ func C17(tier string) int {
 			}
 		}
 	}
-	res.Rule = fmt.Sprintf("activities whose to/cc/audience hold every sequence of <= %d entries over {owned Collection, owned OrderedCollection, foreign collection, owned non-collection, remote actor}; reply chains of depth 0..%d through inReplyTo/object/target/tag with every embedded / dereferenced-IRI form per link, the final value owned or not, plus chains broken by a missing or unknown-type document, diamonds (one fetched or embedded value referenced on two paths of different length, the owned value below it), and chains ending in a Link-derived value (Mention named by href only; Link whose id and href disagree, the owned one being the id or only the href); depth limit %v; filter {all, first only, none, last only (filtering the slice it is handed in place), all (reversing it in place)}; delivery histories {A, AA, AB, BAA, ABA} over two local inboxes; %d histories, each a sequence of real requests on one application state; oracle: forwarded (once, on the first delivery) iff an owned (Ordered)Collection is addressed and an owned value lies within the limit; recipients are the members of exactly the collections the filter returned; payload equals the received body; the activity is recorded exactly once; plus 16 activities that have a default side effect (Create by IRI / embedded, Update, Delete, Like, Announce, Add, Remove, Follow, Accept, Reject, Undo, Block), with and without application hooks, meeting the three conditions: forwarded once, payload and recorded copy equal to the received activity; states = distinct application states reached, transitions = requests", maxAddr, maxDepth, limits, len(cases))
+	res.Rule = fmt.Sprintf("activities whose to/cc/audience hold every sequence of <= %d entries over {owned Collection, owned OrderedCollection, foreign collection, owned non-collection, remote actor, an owned collection on a foreign host, another tenant's collection on the local host}; reply chains of depth 0..%d through inReplyTo/object/target/tag with every embedded / dereferenced-IRI form per link, the final value owned or not, plus chains broken by a missing or unknown-type document, diamonds (one fetched or embedded value referenced on two paths of different length, the owned value below it), and chains ending in a Link-derived value (Mention named by href only; Link whose id and href disagree, the owned one being the id or only the href); depth limit %v; filter {all, first only, none, last only (filtering the slice it is handed in place), all (reversing it in place)}; delivery histories {A, AA, AB, BAA, ABA} over two local inboxes; %d histories, each a sequence of real requests on one application state; oracle: forwarded (once, on the first delivery) iff an owned (Ordered)Collection is addressed and an owned value lies within the limit; recipients are the members of exactly the collections the filter returned; payload equals the received body; the activity is recorded exactly once; plus 16 activities that have a default side effect (Create by IRI / embedded, Update, Delete, Like, Announce, Add, Remove, Follow, Accept, Reject, Undo, Block), with and without application hooks, meeting the three conditions: forwarded once, payload and recorded copy equal to the received activity; states = distinct application states reached, transitions = requests", maxAddr, maxDepth, limits, len(cases))
 	res.Assumptions = []string{"locks are counted, not blocking (a collection addressed twice is C09's known finding)", "a dereferenced document that is not JSON aborts the search with an error and is left to C11"}
 	var mu sync.Mutex
 	states := map[uint64]struct{}{}
@@ -332,6 +353,12 @@ func C17(tier string) int {
 			}
 			a.MaxFwdDepth = c.limit
 			a.Filter = c.filter
+			a.OwnedExtra[c17RemoteOwned], a.OwnedExtra[c17RemoteOwnedColl] = true, true
+			a.NotOwned[c17LocalForeign], a.NotOwned[c17LocalForeignCol] = true, true
+			a.PutDoc(Doc("Note", c17RemoteOwned, "content", "ours, hosted elsewhere"))
+			a.PutDoc(Doc("Note", c17LocalForeign, "content", "another tenant's"))
+			a.PutDoc(Doc("Collection", c17RemoteOwnedColl, "items", L{Erin, Carol}))
+			a.PutDoc(Doc("Collection", c17LocalForeignCol, "items", L{Dave}))
 			// expected
 			var ownedColls []string
 			seen := map[string]bool{}
